@@ -26,6 +26,9 @@ def main(tier, replay, t0):
             continue
         x = c.cfgs[0]
         if c.gen[x["id"]].get("result") != "ok":
+            v = probes.refusal_violation(c, x, "layout entry whose visibility could be read")
+            if v and c.truth["groups"]:
+                viol.append(v)
             continue
         if not camp.module_ok(c.id, x["id"]):
             lost += 1
